@@ -121,6 +121,13 @@ def cases(tier, seed):
         d.update({"fields": ["temp", "density", "Z", "Zvar"], "payload": "pos" if vi % 2 else "signed", "layout": lay, "seed": seed})
         out.append({"kind": "user", "desc": d, "full": vi == 0 or tier == "thorough", "schedules": vi in (0, len(variants) - 1, len(variants) // 2),
                     "w": 6 if vi == 0 else 1})
+    # seven levels towards the far corner, twelve fields: FAB header lines longer than 100 bytes in input and output
+    d = dict(scope.deep_corner_mesh())
+    d.update(geo)
+    L2 = scope.layouts(2, 'idrev')
+    d.update({"fields": ["temp", "density", "Z", "Zvar"] + ["p%d" % i for i in range(8)], "payload": ["pos", "signed", "coded"] * 4,
+              "layout": [None, L2[-1], None, L2[1], None, L2[2], L2[-1]], "seed": seed})
+    out.append({"kind": "user", "desc": d, "full": False, "schedules": False, "w": 6})
     # Cantera part
     for ri, rec_ in enumerate(["HRR", "ENT", "SRi", "SDi", "RRi", "USER_S"]):
         for ki, kept in enumerate([None, "density", "temp Zmix", "Zmix density", "Y(O2) temp"]):
